@@ -161,3 +161,20 @@ P('C09', 'other',
   'early return except for an empty weight dict) and normalisation preserves the key set - which is what makes a held asset without weight '
   'get an explicit zero target and be liquidated. Not decided: that holdings equal the target after the fills (composition with C04/C02).')
 TECHNIQUE['C09'] = 'static analysis: provenance of the weight vector through the construction steps, canonical order-difference formula, loop-completeness path rules'
+
+P('C10', 'other',
+  'Static rules on DollarWeightedCashBufferedOrderSizer. S1 formula slot, compared by canonical arithmetic: quantity = int(FLOOR((A - fee(A)) / P)) '
+  'with A = equity x (1 - buffer) x w/sum(w), fee = the broker fee model called with consideration A, P = the latest ask at dt; rounding class '
+  'must be FLOOR (not ROUND/CEIL/TRUNC) with nothing between the ratio and the floor. S2 guards as decision tables / dominance rules: buffer '
+  'accepted iff in [0,1] (values -0.5, 0, 0.5, 1, 1.5), the negative-weight test dominates every return of the normaliser, normalisation '
+  'precedes sizing on every non-empty path, the NaN-price check dominates the division and raises ValueError, ~0-sum weights come back '
+  'unscaled, an empty target only for empty weights. Not decided: the inequality cost+fees <= share < cost of one more share (a numeric '
+  'consequence of FLOOR for positive prices) and float rounding of the division.')
+TECHNIQUE['C10'] = 'static analysis: canonical formula-slot matching on symbolic path summaries, guard decision tables and dominance rules'
+P('C11', 'other',
+  'Static rules on LongShortLeveragedOrderSizer. S1 weights scaled by leverage / sum(|w|), the ~0 shortcut tests the gross sum(|w|). S2 per '
+  'asset: fee estimated on equity x scaled weight, price = latest ask at dt, quantity = int(t / P) where t truncates the after-cost dollars '
+  'toward zero - FLOOR exactly on the branch where they are >= 0 and CEIL where < 0 (or a TRUNC-class call), both signs covered. S3 leverage '
+  'accepted iff > 0 (values -1, 0, 0.5, 1, 3), NaN price refused before the division. Not decided: the gross-exposure bound and "largest '
+  'affordable within one currency unit" (numeric consequences).')
+TECHNIQUE['C11'] = 'static analysis: canonical formula-slot matching, sign-domain decision table of the truncation branches, guard tables'
